@@ -81,6 +81,13 @@ def check_swap(facts, path):
 def loop_direction(ft, idx_term):
     """'desc' / 'asc' / None for an index produced by iterating a Range (optionally reversed)"""
     t = idx_term
+    # hand-written ascending counter recognised by the loop layer (`let mut i = 0; while i < end { .. i += 1 }`)
+    from ..query import loops_of as _loops_of
+    for lp in _loops_of(ft):
+        if getattr(lp, "counter", False) and lp.item is not None and strip_site(lp.item) == strip_site(t):
+            start, end = lp.source[3]
+            if const_int(start) == 0:
+                return "asc", end
     # hand-written counters: `let mut i = end; while i > 0 { i -= 1; use(i) }` walks end-1 .. 0,
     # `let mut i = 0; while i < end { use(i); i += 1 }` walks 0 .. end-1
     cnt, off = t, 0
